@@ -66,13 +66,36 @@ theorem second_render_equals_first (s : MsgState) (e1 e2 : Entropy)
     planBytes (writeMsg (writeMsg s e1 false).2 e2 false).1.acts = planBytes (writeMsg s e1 false).1.acts :=
   render_idempotent_all s e1 e2 hp h
 
+/-- **A message that changes its shape between two renders keeps distinct boundaries.** The user's
+    boundary belongs to the outermost multipart of every render. A layer that was the outermost one in an
+    earlier render (and remembers the user's boundary) and is nested now - an attachment was added - gets
+    a boundary of its own: whatever the cache holds, below a multipart/mixed that carries the user's
+    boundary the related and alternative layers never carry it too. (Before the repair `fix: a nested
+    multipart kept the user provided boundary ...` both layers were written with the same boundary and the
+    rendering could not be read.) -/
+theorem nested_layers_never_share_the_user_boundary (s : MsgState) (e : Entropy)
+    (hu : s.boundary.isEmpty = false) (hM : hasMixed s = true)
+    (hR : e.bRelated ≠ s.boundary) (hA : e.bAlt ≠ s.boundary) :
+    (hasRelated s = true → (writeMsg s e false).2.bRelated ≠ s.boundary) ∧
+    (hasAlt s = true → (writeMsg s e false).2.bAlt ≠ s.boundary) := by
+  obtain ⟨_, _, _, _, _, _, _, _, _, _, bR, bA⟩ := writeMsg_state s e
+  constructor
+  · intro h
+    rw [bR]
+    simp only [h, if_true, hM, hu, Bool.not_true, Bool.not_false, Bool.and_true]
+    exact nested_bnd_ne_user _ _ _ hR
+  · intro h
+    rw [bA]
+    simp only [h, if_true, hM, hu, Bool.not_true, Bool.not_false, Bool.and_true, Bool.false_and, Bool.true_or]
+    exact nested_bnd_ne_user _ _ _ hA
+
 /-- the hypotheses are satisfiable: a fresh message with two parts and an attachment, 30-character
     random boundaries -/
 example : RenderOK { parts := [⟨sb "text/plain", [], [], encQP, ⟨sb "a", false⟩, false, false⟩, ⟨sb "text/html", [], [], encQP, ⟨sb "b", false⟩, false, false⟩],
                      attachments := [⟨sb "f.txt", [], [], [], [], [], ⟨sb "x", false⟩⟩] }
     { bMixed := sb "0123456789abcdef0123456789abcd", bRelated := sb "1123456789abcdef0123456789abcd", bAlt := sb "2123456789abcdef0123456789abcd" } :=
   { user := Or.inl rfl, cM := Or.inl rfl, cR := Or.inl rfl, cA := Or.inl rfl,
-    fM := by decide, fR := by decide, fA := by decide,
+    fM := by decide, fR := by decide, fA := by decide, nR := by decide, nA := by decide,
     hdrE := fun f hf => (by cases hf),
     hdrA := fun f hf => (by
       have : f.header = [] := by
